@@ -29,7 +29,9 @@ ASSUMPTIONS = [
 MINIMUM = {"syncs": 120, "entries_compared": 3000, "symlinks_compared": 100, "resync_steps": 60}
 SHARD_TIMEOUT = {"quick": 150, "thorough": 3000}
 
-NAMES = ["a", "a.tmp", "b.txt", "b.txt.tmp", "b.txt~", ".b.txt.swp", "with space", "ünï-cödé", "-dash", "new\nline", "日本", "x" * 40, ".hidden", "tab\there", "q'uote\"", "CAPS"]
+NAMES = ["a", "a.tmp", "b.txt", "b.txt.tmp", "b.txt~", ".b.txt.swp", "with space", "ünï-cödé", "-dash", "new\nline", "日本", "x" * 40, ".hidden", "tab\there", "q'uote\"", "CAPS",
+         # names that are not in unicode normal form C (and, next to them, what NFC would make of them): different names here
+         "e\u0301te\u0301.txt", "\u00e9t\u00e9.txt", "A\u030angstro\u0308m", "\u212bngstr\u00f6m"]
 
 
 def shards(tier, seed):
@@ -439,6 +441,9 @@ def run_shard(spec):
                 #  source path would then name the tree by another spelling than the links inside it use)
                 cwdkind = rng.choice(("outside", "inside_target"))
             nsteps = rng.choice((0, 1, 2, 4))
+            trailing_sep = rng.random() < 0.25
+            if trailing_sep:
+                res.count("targets_spelled_with_a_trailing_separator")
             for step in range(nsteps + 1):
                 if step:
                     stepname = modify(rng, src)
@@ -469,7 +474,8 @@ def run_shard(spec):
                 try:
                     rs = CountingRSync(srcarg, callback=lambda *a: lists.append(a), verbose=False)
                     for gw, d in zip(gws, dsts):
-                        rs.add_target(gw, d, delete=delete)
+                        # (the same directory, spelled with a trailing separator by some callers)
+                        rs.add_target(gw, d + os.sep if trailing_sep else d, delete=delete)
                     rs.send()
                 except BaseException as e:
                     os.chdir(home)
